@@ -467,7 +467,7 @@ Print Assumptions C14_own_balance_ite.
 Theorem C14_own_ext_meaning : forall s s',
   ext s s' <-> forall id nd, cfind (cn s) id = Some nd ->
     exists nd', cfind (cn s') id = Some nd' /\ cl nd' = cl nd /\ cch nd' = cch nd.
-Proof. intros s s'. reflexivity. Qed.
+Proof. exact ext_meaning. Qed.
 Print Assumptions C14_own_ext_meaning.
 
 (* (2) as a snapshot of the manager after ANY outcome: well-formed, reference counts exact
@@ -537,7 +537,7 @@ Theorem C14_own_cok_meaning : forall terms nl C cget t (c : C),
   forall code args h, cget c code args = Some h ->
     cref_ok_b terms t h = true /\ (forall r, In r args -> cref_ok_b terms t r = true) /\
     (N.ltb code 39 = true -> minlvl nl t args <= crlevel nl t h).
-Proof. intros. reflexivity. Qed.
+Proof. exact cok_meaning. Qed.
 Print Assumptions C14_own_cok_meaning.
 
 (* (3) ROLLBACK: after Err, without dropping anything else, the collection of Mgr/ConcGc.v
@@ -618,10 +618,7 @@ Print Assumptions C14_own_balance_late_unary_binary_refuted.
 Theorem C14_own_example_state : CInv KBdd ex_terms 3 ex3o /\ bterms_ok ex_terms /\
   terms_unique_b ex_terms = true /\ COK ex_terms 3 acache ac_get (cn ex3o) [] /\
   (forall i, In i [1; 2; 3; 4; 5; 6]%positive -> stored ex_terms (cn ex3o) (RN i)).
-Proof.
-  exact (conj ex3o_inv (conj (proj1 ex_terms_ok) (conj (proj2 ex_terms_ok)
-          (conj (proj1 (ex_cache_ok (cn ex3o))) ex3o_stored)))).
-Qed.
+Proof. exact ex3o_state. Qed.
 Print Assumptions C14_own_example_state.
 
 Theorem C14_own_example_not : forall p,
@@ -780,5 +777,5 @@ Theorem C14_own_example_subst_quant :
   map (fun cap => oout (quant_on ex_terms 3 0 cap false guards_code ex3o QUnique (RN 6) (RN 3))) [6; 7; 8] =
   [(1, Some 6, Some 5, None, Some true); (1, Some 7, Some 5, None, Some true);
    (0, Some 8, Some 6, Some (RN 8), Some true)].
-Proof. exact (conj ex2o_inv (conj ex2o_substitute (proj1 ex3o_quant))). Qed.
+Proof. exact ex_subst_quant. Qed.
 Print Assumptions C14_own_example_subst_quant.
